@@ -745,8 +745,11 @@ def _verify_unit_once(unit_name, unit, inst, contracts):
     os.makedirs(d, exist_ok=True)
     fname = "%s__%s.rs" % (unit_name, inst_name(inst))
     path = os.path.join(d, fname)
-    with open(path, "w") as f:
+    # atomic: concurrent checks of different properties assemble the same unit file; a reader must never see it half-written
+    tmp = "%s.tmp.%d" % (path, os.getpid())
+    with open(tmp, "w") as f:
         f.write(asm.text())
+    os.replace(tmp, path)
     res = run_verus(path)
     fails, mach = classify(asm, res, contracts, unit)
     # proof-shape drift: a function that now contains MORE closures or loops than on the unchanged tree carries code that
